@@ -1460,7 +1460,8 @@ def replay(ctx: Ctx, rp: dict) -> int:
             if ok and core.parse_int_list(ev[0]) != []:
                 keys = expected_keys(c)
                 print("settings that differ:", [keys[p] for p in parse_details(ev[1])[0] if 0 <= p < len(keys)])
-    print("specification (evaluated in Coq):", "VIOLATED" if bad else "holds")
+    how = "results compared by the driver" if k == "sweeprun" else "evaluated in Coq"
+    print(f"specification ({how}):", "VIOLATED" if bad else "holds")
     return 1 if bad else 0
 
 
